@@ -750,7 +750,32 @@ func (e *verifEnv) restart(op string, pres []*verifSnapshot) {
 // auto-connect / auto-disconnect is Go map order. Everything that orders or
 // names tasks therefore goes by (change, kind, summary): the summaries name
 // the plug, slot, hook and snap.
-func verifTaskLabel(t *state.Task) string { return t.Kind() + "<" + t.Summary() + ">" }
+//
+// Two hook tasks of one change can carry the same summary (the
+// disconnect-plug hook runs once per connection of the plug), so hook tasks
+// are further told apart by the connect/disconnect task they belong to.
+// Labels never change; they are cached per run (all callers hold the state
+// lock).
+var verifLabels = map[string]string{}
+
+func verifTaskLabel(t *state.Task) string {
+	if l, ok := verifLabels[t.ID()]; ok {
+		return l
+	}
+	l := t.Kind() + "<" + t.Summary() + ">"
+	if t.Kind() == "run-hook" {
+		var hctx map[string]interface{}
+		if err := t.Get("hook-context", &hctx); err == nil {
+			if id, ok := hctx["attrs-task"].(string); ok {
+				if at := t.State().Task(id); at != nil {
+					l += "@<" + at.Summary() + ">"
+				}
+			}
+		}
+	}
+	verifLabels[t.ID()] = l
+	return l
+}
 
 func verifTaskLess(a, b *state.Task) bool {
 	ca, cb := 0, 0
@@ -847,8 +872,11 @@ func (e *verifEnv) submit(label string, overlapping bool, withFault bool, step i
 		present[n] = e.installed(n)
 	}
 	var canConnect, canDisconnect, canForget []verifPair
-	for _, p := range verifPairs {
+	for i, p := range verifPairs {
 		if _, active := pre.active[p.id()]; !active && present[p.ps] && present[p.ss] {
+			if i == 4 && !c.Chance("op.mismatched-pair", 1, 4) {
+				continue
+			}
 			canConnect = append(canConnect, p)
 		}
 	}
@@ -1379,6 +1407,7 @@ func verifRunC22(c *verifsim.Ctx) {
 		verifDB = db
 	})
 
+	verifLabels = map[string]string{}
 	e := &verifEnv{c: c, db: verifDB, plans: map[string]*verifPlan{}, profiles: map[string]*verifProfile{}, hooks: map[string]bool{}}
 	be := &verifSecBackend{e: e}
 	restores = append(restores, ifacestate.MockSecurityBackends([]interfaces.SecurityBackend{be}))
